@@ -801,6 +801,15 @@ class ExprMixin:
             for (k, v, loops, guards) in base.entries:
                 if k == idx and not loops and not guards:
                     return v
+            if base.entries and all(is_const(k) and not l and not g for (k, v, l, g) in base.entries) \
+                    and not is_const(idx) and self.is_static(idx) and self.dom(idx).vals is not None:
+                # dispatch table indexed by a Literal field: one configuration per key
+                for (k, v, l, g) in base.entries:
+                    if self.config.test_eq(idx, self.dom(idx), k[1]):
+                        return v
+                self.event("keyerror", {"table": self.to_term(base), "key": idx,
+                                        "remaining": tuple(sorted(map(repr, self.dom(idx).vals)))}, None)
+                return ("unk", "KeyError")
             return ("idx", self.ref_term(base), idx)
         base = self.to_term(base)
         if base[0] in ("tuple", "list") and is_const(idx) and isinstance(idx[1], int):
@@ -830,8 +839,17 @@ class ExprMixin:
         self.frame.env = dict(saved_env)
         n_loops, n_guards = 0, 0
         try:
-            for gen in node.generators:
-                it = self.eval(gen.iter)
+            if len(node.generators) == 1:
+                gen0 = node.generators[0]
+                it0 = self.eval(gen0.iter)
+                items = self._known_items(it0)
+                if items is not None:
+                    return self._comp_over_items(node, elt, dict_kv, gen0, items, base_loops, base_guards)
+                pre = it0
+            else:
+                pre = None
+            for gi, gen in enumerate(node.generators):
+                it = pre if (gi == 0 and pre is not None) else self.eval(gen.iter)
                 loop = self.new_loop("comp", it, gen)
                 self.loops = self.loops + (loop,)
                 n_loops += 1
@@ -858,6 +876,40 @@ class ExprMixin:
                 self.guards.pop()
             self.loops = base_loops
             self.frame.env = saved_env
+
+    def _comp_over_items(self, node, elt, dict_kv, gen, items, base_loops, base_guards):
+        """comprehension over a list whose items are known: one output item per input item"""
+        out = PyDict(base_loops=base_loops, base_guards=base_guards) if dict_kv is not None else \
+            PyList(base_loops=base_loops, base_guards=base_guards)
+        for val, loops, guards in items:
+            nl, ng = len(self.loops), len(self.guards)
+            self.loops = self.loops + tuple(loops)
+            self.guards.extend(guards)
+            extra = []
+            try:
+                self.assign(gen.target, val, gen)
+                skip = False
+                for cond in gen.ifs:
+                    c = self.eval(cond)
+                    t = self.truth(c) if not loops else None
+                    if t is True:
+                        continue
+                    if t is False:
+                        skip = True
+                        break
+                    extra.append(self.to_term(c))
+                if skip:
+                    continue
+                self.guards.extend(extra)
+                if dict_kv is not None:
+                    out.entries.append((self.to_term(self.eval(dict_kv[0])), self.eval(dict_kv[1]),
+                                        tuple(loops), tuple(guards) + tuple(extra)))
+                else:
+                    out.items.append(Item(self.eval(elt), tuple(loops), tuple(guards) + tuple(extra)))
+            finally:
+                self.loops = self.loops[:nl]
+                del self.guards[ng:]
+        return out
 
     def _mentions_loop(self, v, loop):
         from .terms import subterms
